@@ -1533,7 +1533,7 @@ def run(ck):
 
 
 LIFE_KINDS = ["oset", "omset", "omap", "ommap", "uset", "umset", "umap", "ummap"]
-LIFE_OPS = ["copyctor", "movector", "copyassign", "moveassign-eq", "moveassign-neq", "moveassign-pocma", "swap", "swap-pocma", "clear-reuse"]
+LIFE_OPS = ["copyctor", "movector", "copyassign", "moveassign-eq", "moveassign-neq", "moveassign-pocma", "swap", "swap-pocma", "clear-reuse", "merge", "merge-rvalue"]
 LIFE_FLAGS = ["-O1", "-g", "-fsanitize=address,undefined", "-fno-sanitize-recover=all", "-pthread"]
 
 
@@ -1560,7 +1560,7 @@ def run_life(ck):
     ck.traces_validated += len(jobs)
     ck.extra["lifecycle_runs"] = {"runs": len(jobs), "kinds": LIFE_KINDS, "operations": LIFE_OPS}
     ck.oblige("monitor:life-cycle operations with stateful comparator / hasher / key_equal / allocator (copy, move, assignment with equal, unequal and "
-              "propagating allocators, swap, clear): the result uses the functors it reports — iteration in comparator order, no two equivalent keys in a "
+              "propagating allocators, swap, clear, merge from a source whose functors are in a different state): the result uses the functors it reports — iteration in comparator order, no two equivalent keys in a "
               "unique container, contents = the source's, find / failed re-insert, then exactly one success per absent key under concurrent inserts",
               "correspondence", not bad, [(j, v[:2]) for j, v in bad][:2])
     for j, v in bad[:1]:
